@@ -88,7 +88,19 @@ class Check:
         """Exhaustive TLC run of a design model.  Must hold, unless expect_violation names the
         invariant that a *_pinned deviation config is required to break (shows the model is able
         to express the defect).  Vacuity: every action in `required` must have been taken."""
-        r = tlc.run(module, cfg, workers=workers, coverage=True, timeout=timeout,
+        run_cfg = cfg
+        if expect_violation is not None:
+            # keep only the targeted property so that the reported violation is deterministic with many workers
+            lines = []
+            for line in open(os.path.join(tlc.SPEC_DIR, cfg)):
+                w = line.split()
+                if w and w[0] in ("INVARIANT", "PROPERTY") and expect_violation not in w[1:]:
+                    continue
+                lines.append(line)
+            run_cfg = os.path.join(self.scratch, "only-%s-%s" % (expect_violation, cfg))
+            with open(run_cfg, "w") as f:
+                f.writelines(lines)
+        r = tlc.run(module, run_cfg, workers=workers, coverage=True, timeout=timeout,
                     allow_violation=expect_violation is not None, **kw)
         if expect_violation is not None:
             if r.violated != expect_violation:
